@@ -22,7 +22,8 @@ from concurrent.futures.process import BrokenProcessPool
 from . import ROOT
 from .core import digest_of, jsonable
 
-EVIDENCE_DIR = os.path.join(ROOT, "evidence")
+# VERIF_EVIDENCE_DIR: only tools/mutant.py sets it, so that runs against a deliberately broken tree do not overwrite the evidence
+EVIDENCE_DIR = os.environ.get("VERIF_EVIDENCE_DIR") or os.path.join(ROOT, "evidence")
 REPLAY_DIR = os.path.join(ROOT, "replays")
 KNOWN_FINDINGS = os.path.join(ROOT, "known_findings.json")
 SCHEMA = "/root/.vp/EVIDENCE.schema.json"
